@@ -492,12 +492,35 @@ func runAgedHook(c agedHookCase) harness.Result {
 			total += r.N
 		}
 	}
-	return harness.Result{NonTrivial: c.N >= 300, Labels: []string{"kind:" + c.Kind, fmt.Sprintf("calls-on-one-client:%d", c.N)}, Weight: int64(c.N)}
+	return harness.Result{NonTrivial: c.N >= 300 || cli.IsSerial(c.Kind) && c.N >= 12, Labels: []string{"kind:" + c.Kind, fmt.Sprintf("calls-on-one-client:%d", c.N)}, Weight: int64(c.N)}
+}
+
+// TestAgedSerialClient: one hooked serial client making the same long write request (209 to 255 bytes, lengths that divide no power of
+// two) over and over: a few kilobytes of requests and replies through one client value.
+func TestAgedSerialClient(t *testing.T) {
+	idx := 0
+	for _, kind := range []string{cli.Serial, cli.SerialFlush} {
+		for _, regs := range []int{100, 123} {
+			idx++
+			if !harness.Mine(idx) {
+				continue
+			}
+			r := spec.Req{FC: 16, Unit: 9, Addr: 50, Qty: uint16(regs), Payload: harness.Bytes(uint64(regs), 2*regs), ByteCount: uint8(2 * regs)}
+			hc := hookCase{Kind: kind, Req: r, DevSeed: harness.Seed(), Deliver: 8, Cuts: []int{3}, Gaps: []int{0, 1, 0}, GapKind: "empty", Terminal: "ioerr"}
+			if !chkAgedHook.Eval(t, agedHookCase{Kind: kind, N: harness.Pick(14, 80), Cases: []hookCase{hc}}) {
+				return
+			}
+		}
+	}
 }
 
 var chkAgedHook = harness.Define("client-hooks-long-lived-client",
 	func(t *rapid.T) agedHookCase {
-		c := agedHookCase{Kind: rapid.SampledFrom([]string{cli.TCP, cli.RTUNet}).Draw(t, "kind"), N: rapid.SampledFrom([]int{300, 2600, 7000, 12000}).Draw(t, "n")}
+		c := agedHookCase{Kind: rapid.SampledFrom([]string{cli.TCP, cli.RTUNet, cli.TCP, cli.RTUNet, cli.Serial, cli.SerialFlush}).Draw(t, "kind"), N: rapid.SampledFrom([]int{300, 2600, 7000, 12000}).Draw(t, "n")}
+		if cli.IsSerial(c.Kind) {
+			// (the serial client pauses 30 ms in every call)
+			c.N = rapid.SampledFrom([]int{24, 48}).Draw(t, "n_serial")
+		}
 		k := rapid.IntRange(2, 16).Draw(t, "ncases")
 		for len(c.Cases) < k {
 			hc := genHook(t, []string{c.Kind})
